@@ -60,6 +60,15 @@ func (m *Module) classIdentifierProcessing(
 		}
 
 		if nextT.IsTargetIdentifier("private") {
+			isCall, err := e.inlineVisibility(p, *ctx, "private")
+			if err != nil {
+				p.Fatal(*ctx, err)
+			}
+
+			if isCall {
+				continue
+			}
+
 			methodT := base.GetMethodT("Builtin", "", "private", false)
 			if methodT != nil {
 				ctx.StartPrivate()
@@ -70,6 +79,15 @@ func (m *Module) classIdentifierProcessing(
 		}
 
 		if nextT.IsTargetIdentifier("protected") {
+			isCall, err := e.inlineVisibility(p, *ctx, "protected")
+			if err != nil {
+				p.Fatal(*ctx, err)
+			}
+
+			if isCall {
+				continue
+			}
+
 			ctx.StartProtected()
 			defer ctx.EndProtected()
 
@@ -77,6 +95,15 @@ func (m *Module) classIdentifierProcessing(
 		}
 
 		if nextT.IsTargetIdentifier("public") {
+			isCall, err := e.inlineVisibility(p, *ctx, "public")
+			if err != nil {
+				p.Fatal(*ctx, err)
+			}
+
+			if isCall {
+				continue
+			}
+
 			methodT := base.GetMethodT("Builtin", "", "public", false)
 			if methodT != nil {
 				ctx.EndPrivate()
@@ -165,6 +192,15 @@ func (m *Module) Evaluation(
 		}
 
 		if nextT.IsTargetIdentifier("private") {
+			isCall, err := e.inlineVisibility(p, ctx, "private")
+			if err != nil {
+				p.Fatal(ctx, err)
+			}
+
+			if isCall {
+				continue
+			}
+
 			methodT := base.GetMethodT("Builtin", "", "private", false)
 			if methodT != nil {
 				ctx.StartPrivate()
@@ -175,6 +211,15 @@ func (m *Module) Evaluation(
 		}
 
 		if nextT.IsTargetIdentifier("protected") {
+			isCall, err := e.inlineVisibility(p, ctx, "protected")
+			if err != nil {
+				p.Fatal(ctx, err)
+			}
+
+			if isCall {
+				continue
+			}
+
 			ctx.StartProtected()
 			defer ctx.EndProtected()
 
@@ -182,6 +227,15 @@ func (m *Module) Evaluation(
 		}
 
 		if nextT.IsTargetIdentifier("public") {
+			isCall, err := e.inlineVisibility(p, ctx, "public")
+			if err != nil {
+				p.Fatal(ctx, err)
+			}
+
+			if isCall {
+				continue
+			}
+
 			methodT := base.GetMethodT("Builtin", "", "public", false)
 			if methodT != nil {
 				ctx.EndPrivate()
